@@ -326,6 +326,13 @@ def apply(st, op, check):
                                 if q.startswith(m.k(path) + "/") and "/" not in q[len(m.k(path)) + 1:])
             if g != OK or names != want_names:
                 bad("listdir", "differs", path=path, got=names, want=want_names)
+    # the root listing (the walk the engine starts from)
+    rinfo = _do(p.info_path, "/")[1] if st.cfg["kind"] == "mock" else _do(p.info_path, "/")[1]
+    if rinfo is not None:
+        g, names = _do(lambda o: sorted(d.name for d in p.listdir(o)), rinfo.oid)
+        want_names = sorted(v["path"][1:] for q, v in m.t.items() if "/" not in q[1:])
+        if g != OK or names != want_names:
+            bad("listdir", "root-differs", got=names, want=want_names)
     for dead in m.dead_oids[-2:]:
         if not st.cfg["oid_is_path"]:
             g, i = _do(p.info_oid, dead)
